@@ -126,7 +126,7 @@ func psDKG(ids []uint16, t, L int, rng *mrand.Rand, orch string, polIdx int) (ma
 }
 
 func unitC08(e common.Env, p *common.Part) {
-	p.Rule = "PS key generation (directly wired with PRNG delivery order, per-link FIFO or - every sixth configuration - any queued message next; every third configuration through real Loud/Silent schemes) for 2<=t<=n<=5 (thorough 6), party identifier sets 1..n, {1,2,4,..}, {10,20,..} and PRNG 16-bit, message length L=1..4, vectors {all entries empty, all equal, random, one 64 KiB entry}; for EVERY signer subset of size >= t, in PRNG order (every second configuration with one long-lived signer object per party serving all requests, else a fresh one per request): TPS.Sign of the blinded request from the stored share, Prover.UnBlind, ProveKnowledgeOfSignature, Verifier.Verify must all succeed, and all parties report identical public material; plus three requests through ONE Prover and ONE Verifier object on which Init is called again before each request; plus one in-memory request value (ps.Blind) handed to three signers (ps.SignBlindSignature) twice over: all accept, the request's serialisation is unchanged; distinct key = (n, t, L, id set, vector, subset); non-trivial when the proof was built and verified"
+	p.Rule = "PS key generation (directly wired with PRNG delivery order, per-link FIFO or - every sixth configuration - any queued message next; every third configuration through real Loud/Silent schemes) for 2<=t<=n<=5 (thorough 6), party identifier sets 1..n, {1,2,4,..}, {10,20,..} and PRNG 16-bit, message length L=1..4, vectors {all entries empty, all equal, random, one 64 KiB entry}; for EVERY signer subset of size >= t, in PRNG order (every second configuration with one long-lived signer object per party serving all requests, else a fresh one per request): TPS.Sign of the blinded request from the stored share, Prover.UnBlind, ProveKnowledgeOfSignature, Verifier.Verify must all succeed, and all parties report identical public material; plus committees of (21,2), (24,3), (30,2) parties (dealt shares) whose proofs are built by everybody, everybody but the first / last, halves, a middle window and PRNG sets; plus three requests through ONE Prover and ONE Verifier object on which Init is called again before each request; plus one in-memory request value (ps.Blind) handed to three signers (ps.SignBlindSignature) twice over: all accept, the request's serialisation is unchanged; distinct key = (n, t, L, id set, vector, subset); non-trivial when the proof was built and verified"
 	type cfg struct {
 		n, t, L int
 		ids     []uint16
@@ -211,6 +211,50 @@ func unitC08(e common.Env, p *common.Part) {
 		if i%5 == 0 {
 			p.Sample(map[string]interface{}{"n": c.n, "t": c.t, "L": c.L, "ids": c.ids, "wiring": c.orch, "proofs_verified": proofs})
 		}
+	}
+	// large committees (shares dealt with the exported SSS.Gen, as in C18) and LARGE signer sets: everybody, everybody but the first
+	// / the last, the upper and the lower half, a middle window, PRNG sets - products over many evaluation points
+	for ci, nt := range [][2]int{{21, 2}, {24, 3}, {30, 2}} {
+		if !e.Mine(5000+ci) || p.ViolationCount() >= 3 {
+			continue
+		}
+		n, t, L := nt[0], nt[1], 1+ci%2
+		key := fmt.Sprintf("ps large committee n=%d t=%d L=%d", n, t, L)
+		p.Begin(key)
+		stored, parties, err := dealPS(n, t, L)
+		if err != nil {
+			p.Inconcl(key + ": dealing failed: " + err.Error())
+			continue
+		}
+		rng := e.Rng("c08large", n, t)
+		sets := [][]uint16{parties, parties[1:], parties[:n-1], parties[n/2:], parties[:n/2], parties[n/4 : n/4+n/2], parties[n-t:], parties[:t]}
+		for k := 0; k < e.Pick(3, 20); k++ {
+			perm := rng.Perm(n)
+			var sub []uint16
+			for _, x := range perm[:t+rng.Intn(n-t+1)] {
+				sub = append(sub, parties[x])
+			}
+			sets = append(sets, sub)
+		}
+		msg := make([][]byte, L)
+		for i := range msg {
+			msg[i] = []byte(fmt.Sprintf("large-%d", i))
+		}
+		ok := 0
+		for _, sub := range sets {
+			order := append([]uint16{}, sub...)
+			rng.Shuffle(len(order), func(a, b int) { order[a], order[b] = order[b], order[a] })
+			err := jointPS(parties, t, L, stored, order, msg, parties[rng.Intn(n)])
+			p.Case(fmt.Sprintf("%s %d signers", key, len(sub)), err == nil)
+			if err != nil {
+				srt := append([]uint16{}, sub...)
+				sort.Slice(srt, func(a, b int) bool { return srt[a] < srt[b] })
+				p.Violate("ps-completeness/large-signer-set", fmt.Sprintf("%s: the proof built from the %d signers %v does not verify: %v", key, len(sub), srt, err), map[string]interface{}{"n": n, "t": t, "L": L, "signers": srt})
+				break
+			}
+			ok++
+		}
+		p.Count("large_committee_proofs_verified", int64(ok))
 	}
 	// the exported in-memory API: ONE request value handed to several signers one after the other (every signer must accept it,
 	// and again when the round is repeated), and its serialisation taken after the signatures must still be accepted by TPS.Sign
